@@ -32,6 +32,15 @@ def import_panoptica():
     rp = repo_path()
     if sys.path[0] != rp:
         sys.path.insert(0, rp)
+    # the lock factory is replaced *before* the package is imported: module-level
+    # `filelock = Lock()` statements (and any lock the code creates later, in whatever process)
+    # then produce SimLock objects, instead of the harness swapping lock objects afterwards
+    import multiprocessing
+    import multiprocessing.context
+
+    seams.install_threading_seam("panoptica")
+    multiprocessing.Lock = seams.sim_lock_factory
+    multiprocessing.context.BaseContext.Lock = lambda self: seams.SimLock()
     devnull = open(os.devnull, "w")
     old = sys.stdout
     sys.stdout = devnull
@@ -76,9 +85,17 @@ def install():
     m = import_panoptica()
     agg, st, fn, ie, ev, tm = m["agg"], m["st"], m["fn"], m["ie"], m["ev"], m["tm"]
 
-    _expect(agg, "filelock", "lock")
-    _expect(agg, "inevalfilelock", "lock")
-    _expect(agg, "Lock", "callable")
+    n_locks = 0
+    for name, mod in sorted(sys.modules.items()):
+        if mod is None or not (name == "panoptica" or name.startswith("panoptica.")):
+            continue
+        for attr, val in list(vars(mod).items()):
+            if isinstance(val, seams.SimLock):
+                val.name = attr  # readable, deterministic names in event logs
+                n_locks += 1
+            elif type(val).__module__.startswith("multiprocessing.synchronize"):
+                raise HarnessError(f"attachment failed: {name}.{attr} is a real multiprocessing primitive")
+    MODS["module_level_locks"] = n_locks
     _expect(agg, "os", "module")
     _expect(agg, "Path", "callable")
     _expect(ev, "perf_counter", "callable")
@@ -87,9 +104,6 @@ def install():
         if "open" in vars(mod) and vars(mod)["open"] is not seams.sim_open:
             raise HarnessError(f"{mod.__name__} defines its own open(); file seam cannot attach")
 
-    agg.filelock = seams.GroupLock("filelock")
-    agg.inevalfilelock = seams.GroupLock("inevalfilelock")
-    agg.Lock = seams.sim_lock_factory
     agg.open = seams.sim_open
     st.open = seams.sim_open
     agg.os = seams.OsProxy()
